@@ -71,7 +71,7 @@ fn spec(t: Tier) -> Spec {
     Spec {
         id: "C16",
         level: "exploration",
-        rule: format!("components: literal x, literal é, escapes \\a \\b \\f \\n \\r \\t \\v \\\\ \\0 \\101, %%, and each directive of p f h H P d s n i U G m y Y l with flag (none, -) x width (none, 1, 9): 103 components. Every format of <= {all} components on every configuration (9 starting-point spellings: r ./r r/ r// r/. . ../w/r absolute link-to-dir x -P -H -L) and of <= {deep} components on all 27 configurations in thorough (quick: on one, r/ under -H), rendered by the real find over a sandbox with every entry kind (regular, setuid, hard links, empty/non-empty/sticky/setgid directories, fifo, socket, links to each, dangling, outside, at depth 0..2, owners 0/1/54321/2^31) in -sorted order, several formats per run as consecutive -printf actions; the whole output must equal, byte for byte, the independent renderer's (values from lstat()/stat()/readlink() of the selected record, padding left/right to the width, never truncated, literals verbatim, nothing appended). A mismatching batch is bisected to the format and to the component. -fprintf FILE FORMAT is run for every single-component format; mount-point slice: %i %n %s %m %U %y on a tree with a tmpfs mounted inside it (the directory entry of a mount point carries the covered directory's inode number); wide-field slice: every directive and flag with widths 10, 16, 100, 255, 256, 1000 (and 65535 for %d, %y) followed by a literal, on every configuration. non-trivial = format containing a directive", all = t.pick(2, 2), deep = 3),
+        rule: format!("components: literal x, literal é, escapes \\a \\b \\f \\n \\r \\t \\v \\\\ \\0 \\101, %%, and each directive of p f h H P d s n i U G m y Y l with flag (none, -) x width (none, 1, 9): 103 components. Every format of <= {all} components on every configuration (9 starting-point spellings: r ./r r/ r// r/. . ../w/r absolute link-to-dir x -P -H -L) and of <= {deep} components on all 27 configurations in thorough (quick: on one, r/ under -H), rendered by the real find over a sandbox with every entry kind (regular, setuid, hard links, empty/non-empty/sticky/setgid directories, fifo, socket, links to each, dangling, outside, at depth 0..2, owners 0/1/54321/2^31) in -sorted order, several formats per run as consecutive -printf actions; the whole output must equal, byte for byte, the independent renderer's (values from lstat()/stat()/readlink() of the selected record, padding left/right to the width, never truncated, literals verbatim, nothing appended). A mismatching batch is bisected to the format and to the component. -fprintf FILE FORMAT is run for every single-component format (every third FILE exists beforehand with 20 000 bytes of other content); mount-point slice: %i %n %s %m %U %y on a tree with a tmpfs mounted inside it (the directory entry of a mount point carries the covered directory's inode number); wide-field slice: every directive and flag with widths 10, 16, 100, 255, 256, 1000 (and 65535 for %d, %y) followed by a literal, on every configuration. non-trivial = format containing a directive", all = t.pick(2, 2), deep = 3),
         bound: json!({"components": 103, "max_components_all_configs": 2, "max_components_deep_configs": 3, "configs": 27}),
         assumptions: vec![
             "not judged (entries filtered out of the run by -path): %Y and %l on a link the follow mode resolves, %Y on a dangling link; %h when the part before the last component is empty ('/x') or itself ends in a slash ('r//x')".into(),
@@ -552,6 +552,11 @@ fn fprintf_slice(ctx: &mut Ctx, cfg: &Cfg, comps: &[Comp]) {
         }
         let file = outdir.join(format!("o{k}")).to_string_lossy().to_string();
         let ft = fmt_text(f);
+        // every third output file exists already and is longer than what will be written:
+        // "nothing is appended" also means that nothing of the old content is left
+        if k % 3 == 0 {
+            let _ = std::fs::write(&file, vec![b'Z'; 20_000]);
+        }
         let argv = [format!("-{}", cfg.follow), cfg.root.to_string(), "-sorted".into(), "-fprintf".into(), file.clone(), ft.clone()];
         let args: Vec<&str> = argv.iter().map(|s| s.as_str()).collect();
         let got = run_find(&args);
